@@ -465,3 +465,82 @@ func constBytesOf(v ssa.Value) (string, bool) {
 	}
 	return string(buf), true
 }
+
+// ruleMembersNonEmpty: the member text spliced into a Feature/geometry is the
+// inside of a JSON object; an empty object would leave a dangling comma.  So
+// every value stored as extra.members must be tested against "{}" *after* its
+// last transformation (or come from the parser, which only stores non-empty
+// member lists).
+func (p *Program) ruleMembersNonEmpty(c *Check) {
+	fv := p.Field("geojson", "extra", "members")
+	pk := p.Field("geojson", "parseKeys", "members")
+	if fv == nil {
+		c.Undecided("E6.members", "anchor:geojson.extra.members", "", "field not found")
+		return
+	}
+	n := 0
+	for _, fn := range p.RepoSourceFuncs() {
+		for _, b := range fn.Blocks {
+			for _, in := range b.Instrs {
+				st, ok := in.(*ssa.Store)
+				if !ok {
+					continue
+				}
+				fa, ok := st.Addr.(*ssa.FieldAddr)
+				if !ok {
+					continue
+				}
+				stt, ok := fa.X.Type().Underlying().(*types.Pointer).Elem().Underlying().(*types.Struct)
+				if !ok || stt.Field(fa.Field) != fv {
+					continue
+				}
+				n++
+				con := SSAName(fn) + " stores extra.members"
+				v := st.Val
+				good := false
+				why := ""
+				// (a) the parser's member list
+				if ld, ok := v.(*ssa.UnOp); ok && ld.Op == token.MUL {
+					if fa2, ok := ld.X.(*ssa.FieldAddr); ok {
+						if s2, ok := fa2.X.Type().Underlying().(*types.Pointer).Elem().Underlying().(*types.Struct); ok && s2.Field(fa2.Field) == pk {
+							good, why = true, "the parser's member list (stored only when at least one foreign member was seen)"
+						}
+					}
+				}
+				// (b) tested against "{}" after its last transformation
+				if !good {
+					for _, d := range fn.Blocks {
+						if !(d.Dominates(b)) || len(d.Instrs) == 0 {
+							continue
+						}
+						iff, ok := d.Instrs[len(d.Instrs)-1].(*ssa.If)
+						if !ok {
+							continue
+						}
+						bo, ok := iff.Cond.(*ssa.BinOp)
+						if !ok || (bo.Op != token.NEQ && bo.Op != token.EQL) {
+							continue
+						}
+						k, isK := bo.Y.(*ssa.Const)
+						if !isK || k.Value == nil || k.Value.Kind() != constant.String || constant.StringVal(k.Value) != "{}" || bo.X != v {
+							continue
+						}
+						succ := 0
+						if bo.Op == token.EQL {
+							succ = 1
+						}
+						if g := d.Succs[succ]; g == b || g.Dominates(b) {
+							good, why = true, "tested against \"{}\" after its last transformation"
+						}
+					}
+				}
+				if good {
+					c.OK("E6.members", con, p.Pos(st.Pos()), why)
+				} else {
+					c.Bad("E6.members", con, p.Pos(st.Pos()), "the member text stored here is not known to be a non-empty object: the writer splices its inside after a comma, so an empty object (\"{ }\", or one whose only member was removed) makes the output `…,,\"properties\"…`, which is not JSON")
+				}
+			}
+		}
+	}
+	c.Floor("E6.members", n, 2, "stores to extra.members")
+}
